@@ -1,6 +1,7 @@
 """C10 -- results depend only on the arguments, not on what was called before.
 
-Five TLA+ modules, each explored by TLC and replayed on the real objects:
+Six TLA+ modules, each explored by TLC and replayed on the real objects:
+  CopyIndep      class x copy mechanism x mutations of either object -> the other object's projection must not move
   KrigCalcCache  set/get histories of the lazy KrigingCalcul   -> vs freshly built object
   CovCache       optimised covariance evaluations on one Model -> vs pairwise loop / fresh Model
   NeighMemo      select() histories of a moving neighbourhood  -> vs freshly built neighbourhood
@@ -158,6 +159,42 @@ def run(tier):
     ck.cov["cow_histories"] = len(scripts); ck.cov["cow_steps_compared"] = nst
     ck.sample({"module": "CowVector", "script": scripts[len(scripts) // 2]})
     log("[C10] CowVector: %d histories, %d steps compared" % (len(scripts), nst))
+
+    # ---------------------------------------------------------------- CopyIndep
+    c = cfg(ck, "ci.cfg", "SPECIFICATION Spec\nCONSTANT MaxLen = %d\nPROPERTY Independent\nCONSTRAINT EmitScripts\nCHECK_DEADLOCK FALSE\n" % (3 if thorough else 2))
+    res = vlib.run_tlc("CopyIndep", c, workers=8, timeout=3000)
+    if res.violation:
+        raise Broken("CopyIndep: " + res.violation)
+    states += res.distinct; trans += res.generated
+    scripts = res.emitted
+    obs = replay(ck, exe, "copy", scripts, "ci")
+    nsteps = 0
+    effective = {}
+    for o in obs:
+        if "crash" in o:
+            sc = o["script"]
+            ck.disagree({"module": "CopyIndep", "kind": "crash", "class": sc["cls"], "copy": sc["kind"]}, o); continue
+        sc = scripts[o["idx"]]
+        if not o["obs"][0]["equal_after_copy"]:
+            ck.disagree({"module": "CopyIndep", "class": sc["cls"], "copy": sc["kind"], "what": "copy differs from its source"}, {"script": sc})
+        for st, ob in zip(sc["hist"], o["obs"][1:]):
+            nsteps += 1
+            other = ob["cpy_changed"] if st["who"] == "src" else ob["src_changed"]
+            own = ob["src_changed"] if st["who"] == "src" else ob["cpy_changed"]
+            if own:
+                effective[(sc["cls"], st["m"])] = True
+            else:
+                effective.setdefault((sc["cls"], st["m"]), False)
+            if other:
+                ck.disagree({"module": "CopyIndep", "class": sc["cls"], "copy": sc["kind"], "mutator": st["m"], "applied_to": st["who"]},
+                            {"script": sc, "observation": ob})
+    dead = sorted("%s.%s" % k for k, v in effective.items() if not v)
+    if dead:
+        raise Broken("CopyIndep: mutators that never changed their own object (vacuous): %s" % dead)
+    nscripts += len(scripts)
+    ck.cov["copy_histories"] = len(scripts); ck.cov["copy_steps_observed"] = nsteps
+    ck.sample({"module": "CopyIndep", "script": scripts[len(scripts) // 2]})
+    log("[C10] CopyIndep: %d histories over %d classes, %d steps observed" % (len(scripts), len(set(s["cls"] for s in scripts)), nsteps))
 
     # ---------------------------------------------------------------- Globals
     c = cfg(ck, "g.cfg", "SPECIFICATION Spec\nCONSTANT MaxPrefix = %d\nCONSTRAINT EmitScripts\nCHECK_DEADLOCK FALSE\n" % (2 if thorough else 1))
